@@ -346,8 +346,13 @@ func (x *World) checkQueryRow(q api.Query, spec *model.FilterSpec, i int, e ecs.
 			return x.viol("value", "query Get()[%d] (%s) for entity #%d holds token %d (consistent=%v), model says %d", k, c, i, tok, ok, me.Val[c])
 		}
 	}
-	if spec.Unsafe || len(spec.Params) > 0 {
-		for _, c := range spec.Required().Rels().List() {
+	{
+		// typed queries resolve GetRelation by generic parameter position only
+		relSet := ct.Of(spec.Params...).Rels()
+		if spec.Unsafe {
+			relSet = spec.Required().Rels()
+		}
+		for _, c := range relSet.List() {
 			got := q.GetRelation(c)
 			want := x.handle(me.Tgt[c])
 			if got != want {
